@@ -19,7 +19,7 @@ RULE = ('T = 8, 16, 32 threads (more than the 16 cores) started at a barrier, ea
         'points yield with probability 1/64. Verdicts: any ThreadSanitizer report with a library frame (tsan, tsan-fat builds; the fat vector is '
         'initialised before the threads start except in the named cold-start scenario); any difference between a thread\'s replies and the serial run of '
         'its script (serial run judged by the Python oracles); any changed byte in libmpir.a\'s .data/.bss outside the documented globals. '
-        'distinct = (variant, thread count, same/different scripts, script content); the run is inconclusive without overlapping calls')
+        'distinct = (variant, thread count, same/different scripts, script content); the run is inconclusive without overlapping calls Static sweep (single thread, function-complete): every generic function of the driver table is called on edge and random in-domain operands and after each function the writable static storage of libmpir.a (from the linker map) must be unchanged apart from the documented globals.')
 ASSUMPTIONS = ['accesses inside assembly kernels are invisible to TSan', 'only the schedules that occurred are judged (TSan\'s happens-before analysis generalises over them)',
                'excluded as documented: mpf_set_default_prec/mpf_init, mp_set_memory_functions after start, the obsolete global-state random functions']
 DOCUMENTED_GLOBALS = ('memory.o', 'errno.o', 'rands.o', 'set_dfl_prec.o', 'mp_set_fns.o')
@@ -243,6 +243,45 @@ def scenario(a):
     res['wall'] = time.time() - t0
     return res
 
+def static_sweep(a):
+    """single-threaded, function-complete companion of the threaded runs: every generic function of the table is called on edge operands (the
+    C04 edge cases) and after each function's calls the writable static storage of libmpir.a must be what it was before, apart from the
+    state the manual documents as global.  A hidden cache, lazily built table or scratch variable shows up here whatever the schedule."""
+    variant, sd, K = a
+    signal.signal(signal.SIGINT, signal.SIG_IGN)
+    import c04
+    res = dict(failures=[], calls=0, functions=0, harness_errors=[], regions=0, changed_documented=set())
+    try:
+        exe = bld.ensure_driver(variant); regs = map_regions(exe); res['regions'] = len(regs)
+        r = random.Random((sd * 31 + 0x51a71c) & 0xffffffffffff)
+        d = rpc.Drv(exe)
+        try:
+            d.batch(['dseg ' + ' '.join('%x:%x:%s' % rg for rg in regs), 'cpuvec', 'c gmp_randseed_ui R0 #5', 'dsnap'])
+            for name in c04.EDGE_FNS:
+                cmds = []
+                for j in range(K):
+                    for mode in ('edge', 'rand'):
+                        case = c04.edge_build(('edge', name, (j * 17 + 3) % 156, r.getrandbits(48), mode), None)
+                        if case is not None: cmds += case.cmds
+                if not cmds: continue
+                try:
+                    rep = d.batch(cmds + ['ddiff', 'dsnap'], timeout=600)
+                except rpc.DrvDied as e:
+                    res['harness_errors'].append('static sweep: driver died in %s: %s' % (name, e.crashline)); break
+                dd = rep[-2]; res['calls'] += sum(1 for c in cmds if c.startswith('c ')); res['functions'] += 1
+                changed = dd.split()[1:-3] if 'changed=' in dd else []
+                for nm in changed:
+                    if nm.startswith(DOCUMENTED_GLOBALS): res['changed_documented'].add(nm); continue
+                    if len(res['failures']) < 6:
+                        res['failures'].append(dict(key='static-state-modified:%s' % nm, detail='writable static storage of libmpir.a changed while %s was being called (single thread): %s' % (name, dd[:300]),
+                                                    variant=variant, spec={'static_sweep': name, 'seed': sd}, cmds=cmds[:60], replies=[], stderr=''))
+        finally:
+            d.close()
+    except Exception as ex:
+        res['harness_errors'].append('static sweep: %s\n%s' % (ex, traceback.format_exc()[-800:]))
+    res['changed_documented'] = sorted(res['changed_documented'])
+    return res
+
 def main(argv):
     ap = argparse.ArgumentParser(); ap.add_argument('--tier', default=os.environ.get('VERIF_TIER', 'quick')); ap.add_argument('--replay'); ap.add_argument('--variants')
     a = ap.parse_args(argv)
@@ -274,6 +313,11 @@ def main(argv):
     with multiprocessing.get_context('fork').Pool(3 if q else 4) as pool:
         results = pool.map(scenario, jobs, chunksize=1)
     agg = dict(evaluations=0, cases=0, tags=set(), failures=[], samples=[], harness_errors=[], notes=[])
+    ss = None
+    if not a.replay:
+        ss = static_sweep(('plain' if 'plain' in variants else variants[-1], sd, 12 if q else 120))
+        agg['failures'] += ss['failures']; agg['harness_errors'] += ss['harness_errors']; agg['evaluations'] += ss['calls']
+        agg['tags'] |= {hash(('static', i)) & 0xffffffffffff for i in range(ss['functions'])}
     overlap = 0; per = {}; tsr = 0
     for jb, r in zip(jobs, results):
         agg['evaluations'] += r['evaluations']; agg['cases'] += r['cases']; agg['tags'] |= r['tags']; agg['failures'] += r['failures']; agg['samples'] += r['samples']
@@ -282,7 +326,8 @@ def main(argv):
         pv['max_simultaneous_same_function'] = max(pv['max_simultaneous_same_function'], r.get('maxsim', 0)); pv['wall'] += round(r.get('wall', 0))
         if 'ddiff' in r: pv['data_segment'] = r['ddiff']; pv['static_regions_monitored'] = r.get('regions')
     cov = dict(evaluations=agg['evaluations'], distinct_nontrivial=len(agg['tags']), rule=RULE, samples=agg['samples'][:8], variants=variants, scenarios=len(jobs), per_variant=per,
-               overlapping_calls=overlap, tsan_reports_seen=tsr, tree=bld.tree_hash())
+               overlapping_calls=overlap, tsan_reports_seen=tsr, tree=bld.tree_hash(),
+               static_sweep=None if ss is None else dict(functions=ss['functions'], calls=ss['calls'], regions_monitored=ss['regions'], documented_globals_seen_changing=ss['changed_documented']))
     inconc = None
     if overlap == 0 and not a.replay: inconc = 'no overlapping calls were observed: the threads did not run concurrently'
     runner.finish(PID, a.tier, LEVEL, agg['failures'], cov, ASSUMPTIONS, t0, harness_errors=agg['harness_errors'], inconclusive=inconc)
